@@ -21,10 +21,15 @@ use std::time::{Duration, Instant};
 pub struct Case {
     pub data: Dataset,
     pub downtime_ms: u64,
+    /// after a first SAVE of the loaded dataset: modifications through paths that are easy to
+    /// forget when "has anything changed?" is tracked, then the SAVE that is judged
+    pub post_ops: Vec<u8>,
 }
 
 fn case(max_keys: usize) -> BoxedStrategy<Case> {
-    (dataset::dataset(max_keys, vec![0, 0, 0, 1, 3, 15]), proptest::sample::select(vec![0u64, 0, 100, 400, 900, 1500])).prop_map(|(data, downtime_ms)| Case { data, downtime_ms }).boxed()
+    (dataset::dataset(max_keys, vec![0, 0, 0, 1, 3, 15]), proptest::sample::select(vec![0u64, 0, 100, 400, 900, 1500]), prop_oneof![2 => Just(vec![]), 1 => proptest::collection::vec(0u8..10, 1..4)])
+        .prop_map(|(data, downtime_ms, post_ops)| Case { data, downtime_ms, post_ops })
+        .boxed()
 }
 
 pub const K_MARKER: &str = "K07-rdb-list-with-marker-head-reloads-as-stream";
@@ -84,6 +89,35 @@ fn exec_server(c: &Case, active: &crate::findings::Active) -> CaseResult {
     cl.default_timeout = Duration::from_secs(20);
     if let Err(e) = dataset::load_via_client(&mut cl, &data) {
         return CaseResult::fail(format!("loading the dataset: {}", e), "load-refused");
+    }
+    if !c.post_ops.is_empty() {
+        // a first, complete SAVE; then changes made only through the generated paths, on keys of
+        // their own in database 0; the second SAVE (below) must write them
+        let setup: Vec<Vec<&str>> = vec![vec!["SELECT", "0"], vec!["RPUSH", "post:list", "a", "b", "c", "d", "e", "f"], vec!["SADD", "post:set", "a", "b", "c", "d"], vec!["SET", "post:str", "v"], vec!["HSET", "post:hash", "f", "v"], vec!["ZADD", "post:zset", "1", "a", "2", "b"], vec!["SET", "post:ttl", "v", "EX", "100000"]];
+        for cm in &setup {
+            let _ = cl.cmd(cm);
+        }
+        match cl.cmd(&[b"SAVE".as_ref()]) {
+            Reply::Frame(Frame::Simple(_)) => {}
+            r => return CaseResult::fail(format!("first SAVE -> {:?}", r), "save-refused"),
+        }
+        for op in &c.post_ops {
+            let cmds: Vec<Vec<&str>> = match op {
+                0 => vec![vec!["BLPOP", "post:list", "0"]],
+                1 => vec![vec!["BRPOP", "post:list", "post:other", "0"]],
+                2 => vec![vec!["SPOP", "post:set"]],
+                3 => vec![vec!["EVAL", "return redis.call('APPEND', KEYS[1], 'x')", "1", "post:str"]],
+                4 => vec![vec!["MULTI"], vec!["HSET", "post:hash", "g", "w"], vec!["EXEC"]],
+                5 => vec![vec!["GETSET", "post:str", "w"]],
+                6 => vec![vec!["PERSIST", "post:ttl"]],
+                7 => vec![vec!["ZPOPMIN", "post:zset"]],
+                8 => vec![vec!["RENAME", "post:hash", "post:hash2"], vec!["RENAME", "post:hash2", "post:hash"], vec!["HDEL", "post:hash", "f"]],
+                _ => vec![vec!["LTRIM", "post:list", "1", "-1"]],
+            };
+            for cm in &cmds {
+                let _ = cl.cmd(cm);
+            }
+        }
     }
     let dbs: Vec<usize> = vec![0, 1, 3, 15];
     let d1 = match dump::dump_server(&mut cl, &dbs) {
@@ -296,7 +330,7 @@ fn exec_lib(lib: &mut Lib, data_all: &Dataset, active: &crate::findings::Active)
 }
 
 fn case2j(c: &Case) -> Value {
-    json!({"kind": "restart", "downtime_ms": c.downtime_ms, "summary": data2j(&c.data), "dataset": dataset::to_json(&c.data)})
+    json!({"kind": "restart", "downtime_ms": c.downtime_ms, "post_ops": c.post_ops, "summary": data2j(&c.data), "dataset": dataset::to_json(&c.data)})
 }
 
 pub fn data2j(d: &Dataset) -> Value {
@@ -376,7 +410,7 @@ pub fn run(tier: Tier, seed: u64, replay: Option<Value>) -> i32 {
             let mut lib = Lib::new("c09replay");
             exec_lib(&mut lib, &data, &active)
         } else {
-            exec_server(&Case { data, downtime_ms: c.get("downtime_ms").and_then(|x| x.as_u64()).unwrap_or(0) }, &active)
+            exec_server(&Case { data, downtime_ms: c.get("downtime_ms").and_then(|x| x.as_u64()).unwrap_or(0), post_ops: c.get("post_ops").and_then(|x| x.as_array()).map(|a| a.iter().filter_map(|v| v.as_u64().map(|v| v as u8)).collect()).unwrap_or_default() }, &active)
         };
         return match res.verdict {
             Verdict::Pass => {
